@@ -6,6 +6,7 @@ import gen_cases as G
 import props_c18
 import props_c12b
 import props_c19
+import props_gen2
 
 VERIF = os.path.dirname(os.path.dirname(os.path.abspath(__file__)))
 
@@ -547,6 +548,9 @@ def gen_C16(seed, tier):
             "toMatrixTranspose %s" % xt(), "rbiMul %s %s" % (rbi(), sv()), "rbiAdd %s %s" % (rbi(), rbi()),
             "rbiToMatrix %s" % rbi(), "rbiSetSpatialMatrix %s" % rbi(), "rbiFromMatrix %s" % rbi(),
             "rbiFromMassComInertiaC %s %s %s" % (G.fr(g.pos()), G.frs(g.vec(-1, 1)), G.frs(g.inertia())),
+            # the (mass, com, Matrix3d) constructor reads the lower triangle: general (non-symmetric) matrix
+            "rbiCtor %s %s %s" % (G.fr(g.pos()), G.frs(g.vec(-1, 1)), G.frs([g.small(-3, 3) for _ in range(9)])),
+            "bodyTransformInertia %s %s %s %s" % (xt(), G.fr(g.pos()), G.frs(g.vec(-1, 1)), G.frs(g.inertia())),
             "applyRBI %s %s" % (xt(), rbi()), "applyTransposeRBI %s %s" % (xt(), rbi()),
             "crossm %s %s" % (sv(), sv()), "crossf %s %s" % (sv(), sv()), "crossmMat %s" % sv(),
             "crossfMat %s" % sv(), "Xrot %s %s" % (ang(), G.frs(g.unit_vec())), "Xrotx %s" % ang(),
@@ -569,6 +573,10 @@ def gen_C16(seed, tier):
             out.append("alg " + o)
             cnt += 1
             g.stats["op:" + o.split()[0]] += 1
+        # jcalc / jcalc_X_lambda_S on explicit per-joint inputs, every built-in joint type in turn
+        out += props_gen2.jcalc_lines(g, [i])
+        out += props_gen2.angvel_lines(g, i)
+        cnt += 3
         if len(samples) < 2:
             samples.append({"ops": [o[:120] for o in ops[:4]]})
     return finish(g, out, samples, cnt)
@@ -1540,21 +1548,21 @@ PROPS = {
     "C03": {"gen": gen_C03, "extra_props": ["C03Cap"], "rule": RULE_MODELS + "; calls: CompositeRigidBodyAlgorithm (flag set / cleared), NonlinearEffects, CalcKineticEnergy, InverseDynamics, CalcMInvTimesTau",
             "explanation": "monitor: H = sum J^T M J from partial velocities of the jet specification; N = Newton-Euler at zero acceleration",
             "assumptions": COMMON_ASSUMPTIONS},
-    "C04": {"gen": gen_C04, "extra_props": ["GenLaws", "C04Cap"], "rule": RULE_MODELS + "; body ids of every class (movable, virtual, fixed)", "explanation": "monitor: pose composition from the base outward",
+    "C04": {"gen": props_gen2.with_jcalc_case(gen_C04, "c04jcalc_0"), "extra_props": ["GenLaws", "GenLaws2", "C04Cap"], "rule": RULE_MODELS + "; body ids of every class (movable, virtual, fixed)", "explanation": "monitor: pose composition from the base outward",
             "assumptions": COMMON_ASSUMPTIONS},
     "C05": {"gen": gen_C05, "extra_props": ["C05Cap"], "rule": RULE_MODELS + "; zero- and garbage-initialised Jacobians", "explanation": "monitor: columns = first-order jets of the pose at unit generalized velocities",
             "assumptions": COMMON_ASSUMPTIONS},
-    "C06": {"gen": gen_C06, "extra_props": ["GenLaws", "C06Cap"], "rule": RULE_MODELS, "explanation": "monitor: first and second jets of point positions / orientation",
+    "C06": {"gen": props_gen2.with_jcalc_case(gen_C06, "c06jcalc_0"), "extra_props": ["GenLaws", "GenLaws2", "C06Cap"], "rule": RULE_MODELS, "explanation": "monitor: first and second jets of point positions / orientation",
             "assumptions": COMMON_ASSUMPTIONS},
     "C14": {"gen": gen_C14, "impl_monitor": impl_monitor_C14,
             "rule": "random construction sequences of 2-9 calls (AddBody with every joint kind, AppendBody, AddBodyCustomJoint, fixed bodies on any parent, named / unnamed) with one failing call (duplicate name on the movable / fixed / multi-DoF / custom path, or an undefined joint type) injected at a random position; structural dump and all numeric parameters after every call; accessors and a dynamics call at the end; distinct = distinct op-kind sequences",
             "explanation": "monitor (direct, on the implementation's dump): well-formedness clauses after every call, rejected call leaves dump+parameters identical; correspondence: the Lean construction state machine reproduces every dump, returned id, error kind and accessor result exactly",
             "assumptions": ["parent ids passed to AddBody are valid ids (the library does not check them)"]},
-    "C15": {"gen": gen_C15,
+    "C15": {"gen": gen_C15, "extra_props": ["GenLaws2"],
             "rule": "Join / Join-then-Separate on random body pairs and rational relative poses (every fifth pair with a massless first body); 1-3 setter calls (mass / com / inertia / all) on a movable body without attachments or on a fixed body (on movable, fixed or massless virtual parents), compared with a model built from scratch with the new parameters on InverseDynamics, CRBA, ForwardDynamics, CalcCenterOfMass; distinct = distinct (model shape, setter sequence) + number of body pairs",
             "explanation": "monitor: rigid union from the definitions (parallel-axis theorem about the union's centre of mass); twin comparison setter-model vs rebuilt model on the implementation; correspondence with the Lean Body.join/separate and setter model",
             "assumptions": COMMON_ASSUMPTIONS},
-    "C16": {"gen": gen_C16, "extra_props": ["GenLaws"],
+    "C16": {"gen": gen_C16, "extra_props": ["GenLaws", "GenLaws2"],
             "rule": "every compact operator of SpatialAlgebraOperators.h / Quaternion.h / rbdl_mathutils on random rational arguments (rational rotations, translations, inertias, unit quaternions incl. rotations by half a turn with trace -1, diagonally dominant shuffled systems for the Gauss solver); distinct = number of (operator, argument) pairs",
             "explanation": "46 theorems: each compact operator equals its 6x6 matrix definition, composition laws, power invariance, quaternion laws; correspondence: the C++ operator vs the Lean definition on explicit arguments",
             "assumptions": COMMON_ASSUMPTIONS},
